@@ -550,10 +550,12 @@ def e2e_case(draw):
             if draw(st.booleans()):
                 key = "rule" if "rule" in e else "ruleKey"
                 e[key] = draw(st.sampled_from([SONAR_RULE, SONAR_RULE2]))
-    sarif_kind = draw(st.sampled_from(["none", "semgrep", "semgrep+foreign", "semgrep+codeql-samefile", "semgrep,codeql-files"]))
+    sarif_kind = draw(st.sampled_from(["none", "semgrep", "semgrep+foreign", "semgrep+codeql-samefile", "codeql+semgrep-samefile", "foreign+codeql+semgrep-samefile", "semgrep,codeql-files"]))
     sarifs = []
     if sarif_kind != "none":
-        tools = {"semgrep": ["semgrep"], "semgrep+foreign": ["foreign", "semgrep"], "semgrep+codeql-samefile": ["semgrep", "codeql"], "semgrep,codeql-files": ["semgrep"]}[sarif_kind]
+        # runs of several tools in one file, in either order: every tool's run must reach its codemods
+        tools = {"semgrep": ["semgrep"], "semgrep+foreign": ["foreign", "semgrep"], "semgrep+codeql-samefile": ["semgrep", "codeql"], "codeql+semgrep-samefile": ["codeql", "semgrep"],
+                 "foreign+codeql+semgrep-samefile": ["foreign", "codeql", "semgrep"], "semgrep,codeql-files": ["semgrep"]}[sarif_kind]
         d = draw(sarif_doc(tools))
         for run in d["runs"]:
             if tool_of_run(run) == "semgrep":
